@@ -251,6 +251,9 @@ def check(prop, tier, seed, runs=None, nops=None, workers=None, opts=None):
     tol = sorted({lab for f in findings if f.get("status") == "open" for lab in f.get("match", {}).get("tolerate_leaf_labels", [])})
     if tol:
         opts["tolerated_leaf_labels"] = tol
+    tol_or = sorted({o for f in findings if f.get("status") == "open" for o in f.get("match", {}).get("tolerate_oracles", [])})
+    if tol_or:
+        opts["tolerated_oracles"] = tol_or
     procs = spawn_workers(prop, seed, R, N, W, tier, opts)
     results, problems = collect(procs, tier)
     cross = None
